@@ -135,13 +135,22 @@ pub fn build(m: &Machine) -> Pair {
 /// A pair whose simulator was used before: `prior` (same device configuration as `m`) is set up and run for up to `steps` steps, the
 /// flags are switched to `m`'s, `reset()` is called, and `m` is then set up through the public fields exactly as `build` does on a
 /// fresh simulator (the saved stack pointer is only written when `m` asks for a non-default one). The reference machine is fresh.
-pub fn build_reused(m: &Machine, prior: &Machine, steps: u32) -> Result<Pair, String> {
+pub fn build_reused(m: &Machine, prior: &Machine, steps: u32) -> Result<Pair, String> { build_reused_held(m, prior, steps, 0) }
+/// `hold`: while `reset()` runs, "another thread" holds a buffer lock: 1 keyboard (exclusive), 2 display (exclusive), 3 keyboard (reader),
+/// 4 display (reader), 5 both exclusively. The guards are released right after the reset, before the next use is set up.
+pub fn build_reused_held(m: &Machine, prior: &Machine, steps: u32, hold: u8) -> Result<Pair, String> {
     assert!(prior.kb.is_some() == m.kb.is_some() && prior.display == m.display && prior.custom == m.custom);
     let mut p = build(prior);
     catch(std::panic::AssertUnwindSafe(|| {
         for _ in 0..steps { let before = (p.sim.pc, p.sim.instructions_run); if p.sim.step_in().is_err() || (p.sim.pc, p.sim.instructions_run) == before { break; } }
         p.sim.flags = SimFlags { strict: m.strict, use_real_traps: m.real_traps, machine_init: MachineInitStrategy::Known { value: FILL }, debug_frames: m.debug_frames, ignore_privilege: m.ignore_priv };
+        let (kbuf, dbuf) = (p.kb.get_buffer(), p.disp.get_buffer());
+        let g1 = if hold == 1 || hold == 5 { Some(kbuf.write().unwrap_or_else(|e| e.into_inner())) } else { None };
+        let g2 = if hold == 2 || hold == 5 { Some(dbuf.write().unwrap_or_else(|e| e.into_inner())) } else { None };
+        let g3 = if hold == 3 { Some(kbuf.read().unwrap_or_else(|e| e.into_inner())) } else { None };
+        let g4 = if hold == 4 { Some(dbuf.read().unwrap_or_else(|e| e.into_inner())) } else { None };
         p.sim.reset();
+        drop((g1, g2, g3, g4));
     }))?;
     let fresh = build(m); // supplies the reference machine (and is dropped)
     let Pair { rf, .. } = fresh;
@@ -161,10 +170,38 @@ pub fn build_reused(m: &Machine, prior: &Machine, steps: u32) -> Result<Pair, St
     Ok(p)
 }
 
+/// A prior use of the simulator that `reset()` interrupts while the machine is in supervisor mode, with a stack pointer of its own in user
+/// memory (so that the stack pointer *not* in R6 at that moment holds a user address): kind 1 = a program blocked inside the OS's GETC
+/// routine under real traps (empty keyboard); kind 2 = supervisor-mode code at x1000 spinning, with saved (user) stack pointer x4000;
+/// kind 3 = inside an interrupt service routine entered from user code. Same device configuration as `m`.
+pub fn supervisor_prior(m: &Machine, kind: u8) -> (Machine, u32) {
+    let mut pm = Machine::user();
+    pm.kb = m.kb.as_ref().map(|_| vec![]); pm.display = m.display; pm.custom = m.custom; pm.device_churn = 0;
+    pm.regs = [0, 1, 2, 3, 4, 5, 0xF000, 7];
+    match kind {
+        1 => { pm.real_traps = true; pm.pokes.extend([(0x3000u16, 0xF020u16), (0x3001, 0xF025)]); (pm, 40) }
+        2 => { pm.psr = 0x0002; pm.pc = 0x1000; pm.saved_sp = 0x4000; pm.regs[6] = 0x2FF0; pm.pokes.extend([(0x1000u16, 0x0FFFu16)]); (pm, 5) }
+        _ => { pm.ignore_priv = true; pm.pokes.extend([(0x3000u16, 0x0FFFu16), (0x0000, 0x1F80), (0x1F80, 0x0FFF)]); pm.psr = 0x8002; (pm, 3) } // TRAP-less: BR self; the caller raises nothing, so kind 3 falls back to user mode
+    }
+}
+
 impl Pair {
     pub fn add_source(&mut self, vect: u8, prio: u8, raise_at: Vec<u64>) -> usize {
         let s = IntSource { vect, prio, state: Arc::new(Mutex::new(IntState { raise_at, ..Default::default() })) };
         self.sim.device_handler.add_device(s.clone(), &[]).ok().expect("add interrupt source");
+        self.sources.push(s);
+        self.sources.len() - 1
+    }
+    /// The same interrupt source installed through another public registration call: slot 1 = `set_display` (the machine must have no
+    /// display of its own), slot 2 = `set_keyboard` (no keyboard), anything else = `add_device`. The source answers no port, so the display /
+    /// keyboard registers read and write as on a machine without that device.
+    pub fn add_source_in_slot(&mut self, slot: u8, vect: u8, prio: u8, raise_at: Vec<u64>) -> usize {
+        let s = IntSource { vect, prio, state: Arc::new(Mutex::new(IntState { raise_at, ..Default::default() })) };
+        match slot {
+            1 => { assert!(!self.rf.disp_attached); self.sim.device_handler.set_display(s.clone()); }
+            2 => { assert!(!self.rf.kb_attached); self.sim.device_handler.set_keyboard(s.clone()); }
+            _ => { self.sim.device_handler.add_device(s.clone(), &[]).ok().expect("add interrupt source"); }
+        }
         self.sources.push(s);
         self.sources.len() - 1
     }
